@@ -1,5 +1,405 @@
 package main
 
-import "fmt"
+// `govc check`: decide one property — collect the functions under contract
+// for it, generate and discharge their obligations, classify failures against
+// the known-findings file, replay counterexamples, write evidence.
 
-func mainCheck(args []string) { fmt.Println("not implemented", args) }
+import (
+	"encoding/json"
+	"flag"
+	"fmt"
+	"os"
+	"os/exec"
+	"path/filepath"
+	"regexp"
+	"sort"
+	"strconv"
+	"strings"
+	"time"
+)
+
+type KnownFinding struct {
+	Property   string `json:"property"`
+	Obligation string `json:"obligation"`
+	What       string `json:"what"`
+	ID         string `json:"id"`
+}
+
+type FixedFinding struct {
+	Property string `json:"property"`
+	Commit   string `json:"commit"`
+	What     string `json:"what"`
+}
+
+type KnownFile struct {
+	Known []KnownFinding `json:"known"`
+	Fixed []FixedFinding `json:"fixed"`
+}
+
+type Evidence struct {
+	PropertyID  string         `json:"property_id"`
+	Tier        string         `json:"tier"`
+	Seed        int            `json:"seed"`
+	Level       string         `json:"level"`
+	Coverage    map[string]any `json:"coverage"`
+	Assumptions []string       `json:"assumptions"`
+	WallS       float64        `json:"wall_s"`
+	Violations  int            `json:"violations"`
+}
+
+func hasTag(tags []string, p string) bool {
+	for _, t := range tags {
+		if t == p {
+			return true
+		}
+	}
+	return false
+}
+
+func mainCheck(args []string) {
+	if len(args) == 0 || args[0] != "check" {
+		fmt.Fprintln(os.Stderr, "unknown command")
+		os.Exit(2)
+	}
+	fs := flag.NewFlagSet("check", flag.ExitOnError)
+	prop := fs.String("property", "", "property id")
+	tier := fs.String("tier", "quick", "quick|thorough")
+	fs.Parse(args[1:])
+	if t := os.Getenv("VERIF_TIER"); t == "quick" || t == "thorough" {
+		*tier = t
+	}
+	seed, _ := strconv.Atoi(os.Getenv("VERIF_SEED"))
+	os.Exit(runCheck(*prop, *tier, seed))
+}
+
+func runCheck(prop, tier string, seed int) int {
+	t0 := time.Now()
+	outDir := filepath.Join(verifDir, "out", prop)
+	os.RemoveAll(outDir)
+	os.MkdirAll(outDir, 0o755)
+	undecided := func(reason string) int {
+		fmt.Printf("UNDECIDED property=%s reason=%s\n", prop, reason)
+		return 2
+	}
+	P, err := LoadProgram(repoDir)
+	if err != nil {
+		return undecided("load: " + oneLine(err.Error()))
+	}
+	S, err := loadSpecs()
+	if err != nil {
+		return undecided("contracts: " + oneLine(err.Error()))
+	}
+	var known KnownFile
+	if data, err := os.ReadFile(filepath.Join(verifDir, "known_findings.json")); err == nil {
+		if err := json.Unmarshal(data, &known); err != nil {
+			return undecided("known_findings.json: " + err.Error())
+		}
+	}
+	// functions under contract for this property
+	var keys []string
+	for k, c := range S.Contracts {
+		if c.Props[prop] && !c.Trusted {
+			keys = append(keys, k)
+		}
+	}
+	sort.Strings(keys)
+	timeout := 10
+	if tier == "thorough" {
+		timeout = 120
+	}
+	var all []*Obligation
+	var results []*FuncResult
+	notes := map[string]bool{}
+	var engineErrs []string
+	for _, k := range keys {
+		if P.Funcs[k] == nil {
+			engineErrs = append(engineErrs, "contract drift: no function "+k)
+			continue
+		}
+		r := VerifyFunction(P, S, k)
+		results = append(results, r)
+		if r.Err != "" {
+			engineErrs = append(engineErrs, k+": "+oneLine(r.Err))
+		}
+		for _, n := range r.Notes {
+			notes[n] = true
+		}
+		for _, o := range r.Obls {
+			if len(o.Props) == 0 || hasTag(o.Props, prop) || o.IsCanary {
+				all = append(all, o)
+			}
+		}
+	}
+	// lemmas
+	lemmaObls := lemmaObligations(S, prop)
+	d := &Discharger{Dir: filepath.Join(outDir, "smt"), Timeout: timeout, Workers: 14, All: tier == "thorough"}
+	d.Run(all)
+	runLemmas(lemmaObls, d)
+	all = append(all, lemmaObls...)
+
+	if len(engineErrs) > 0 {
+		for _, e := range engineErrs {
+			fmt.Printf("ENGINE: %s\n", e)
+		}
+		writeEvidence(prop, tier, seed, all, keys, notes, 0, nil, time.Since(t0), "engine error: "+strings.Join(engineErrs, "; "))
+		return undecided(engineErrs[0])
+	}
+	// classify
+	bySolver := map[string]int{}
+	var solverSecs, maxSecs float64
+	discharged, counted := 0, 0
+	violations := 0
+	var knownHit []map[string]any
+	var failed []*Obligation
+	for _, o := range all {
+		ans := o.Res.Answer
+		if o.IsCanary {
+			if ans != "sat" {
+				fmt.Printf("ENGINE: vacuity canary of %s not satisfiable (%s): preconditions or assumptions are contradictory\n", o.Func, ans)
+				writeEvidence(prop, tier, seed, all, keys, notes, 0, nil, time.Since(t0), "vacuity")
+				return undecided("vacuous contract in " + o.Func)
+			}
+			continue
+		}
+		if ans == "error" {
+			fmt.Printf("ENGINE: solver error on %s: %s\n", o.Name, oneLine(o.Res.Raw))
+			return undecided("solver error on " + o.Name)
+		}
+		solverSecs += o.Res.Secs
+		if o.Res.Secs > maxSecs {
+			maxSecs = o.Res.Secs
+		}
+		if ans == "unsat" {
+			counted++
+			discharged++
+			bySolver[o.Res.Solver]++
+			continue
+		}
+		// failed: known finding?
+		matched := false
+		for _, k := range known.Known {
+			if k.Property == prop && k.Obligation == o.Name {
+				fmt.Printf("KNOWN-FINDING: property=%s %s (%s: %s)\n", prop, k.What, k.ID, o.Name)
+				knownHit = append(knownHit, map[string]any{"id": k.ID, "obligation": o.Name, "answer": ans, "what": k.What, "solver_output": firstLines(o.Res.Raw, 6)})
+				matched = true
+			}
+		}
+		if matched {
+			continue
+		}
+		counted++
+		failed = append(failed, o)
+	}
+	for _, o := range failed {
+		violations++
+		path := filepath.Join(outDir, sanitize(o.Name)+".replay.json")
+		reproduced, detail := writeReplay(path, prop, o)
+		suffix := ""
+		if !reproduced {
+			suffix = " no-failing-input-found"
+		}
+		fmt.Printf("VIOLATION property=%s replay=%s%s\n", prop, path, suffix)
+		fmt.Printf("  obligation %s (%s) %s: %s\n  %s\n", o.Name, o.Res.Answer, o.Src, o.Text, detail)
+	}
+	stats := map[string]any{"by_solver": bySolver, "solver_time_s": round2(solverSecs), "max_obligation_s": round2(maxSecs), "known_findings": knownHit}
+	writeEvidence(prop, tier, seed, all, keys, notes, violations, stats, time.Since(t0), "")
+	fmt.Printf("property %s: %d functions under contract, %d obligations, %d discharged, %d known findings, %d violations, %.1fs\n",
+		prop, len(keys), counted, discharged, len(knownHit), violations, time.Since(t0).Seconds())
+	if violations > 0 {
+		return 1
+	}
+	if counted == 0 {
+		return undecided("no obligations generated (vacuity guard)")
+	}
+	return 0
+}
+
+func round2(f float64) float64 { return float64(int(f*100+0.5)) / 100 }
+
+func sanitize(s string) string {
+	return regexp.MustCompile(`[^A-Za-z0-9_.#-]+`).ReplaceAllString(s, "_")
+}
+
+func oneLine(s string) string {
+	s = strings.ReplaceAll(s, "\n", " / ")
+	if len(s) > 400 {
+		s = s[:400] + "…"
+	}
+	return s
+}
+
+// parseModel reads a (get-value ...) answer into name -> value text.
+func parseModel(m string) map[string]string {
+	out := map[string]string{}
+	re := regexp.MustCompile(`\(\s*([^\s()|]+|\|[^|]*\|)\s+(\(- \d+\)|-?\d+|true|false)\)`)
+	for _, mm := range re.FindAllStringSubmatch(m, -1) {
+		v := mm[2]
+		if strings.HasPrefix(v, "(- ") {
+			v = "-" + strings.TrimSuffix(v[3:], ")")
+		}
+		out[strings.Trim(mm[1], "|")] = v
+	}
+	return out
+}
+
+// writeReplay stores the failed obligation with the solver's answer and, when
+// there is a model and a driver for the function, replays it on the real code.
+func writeReplay(path, prop string, o *Obligation) (bool, string) {
+	rep := map[string]any{
+		"property":      prop,
+		"obligation":    o.Name,
+		"function":      o.Func,
+		"kind":          o.Kind,
+		"source":        o.Src,
+		"clause":        o.Text,
+		"answer":        o.Res.Answer,
+		"solver":        o.Res.Solver,
+		"answers":       o.Res.Answers,
+		"solver_output": firstLines(o.Res.Raw, 40),
+		"smt_file":      filepath.Join(filepath.Dir(path), "smt", strings.NewReplacer("/", "_", "(", "", ")", "", "*", "", "$", "_", "#", "-", "@", "-").Replace(o.Name)+".smt2"),
+	}
+	reproduced := false
+	detail := "no solver model (" + o.Res.Answer + "); the failed obligation is reported as such"
+	if o.Res.Answer == "sat" {
+		model := parseModel(o.Res.Model)
+		rep["model"] = model
+		rep["model_raw"] = firstLines(o.Res.Model, 60)
+		detail = "solver model written; no replay driver for " + o.Func
+		if drv := replayDriverFor(o.Func); drv != "" {
+			ok, out := runReplayDriver(drv, path, rep)
+			rep["replay_output"] = out
+			reproduced = ok
+			if ok {
+				detail = "counterexample replayed on the real code: " + lastLine(out)
+			} else {
+				detail = "counterexample did not reproduce on the real code: " + lastLine(out)
+			}
+		}
+	}
+	rep["reproduced"] = reproduced
+	data, _ := json.MarshalIndent(rep, "", " ")
+	writeFileMk(path, string(data))
+	return reproduced, detail
+}
+
+func lastLine(s string) string {
+	ls := strings.Split(strings.TrimSpace(s), "\n")
+	for i := len(ls) - 1; i >= 0; i-- {
+		if strings.Contains(ls[i], "REPLAY") {
+			return strings.TrimSpace(ls[i])
+		}
+	}
+	return strings.TrimSpace(ls[len(ls)-1])
+}
+
+// replayDriverFor finds /verif/replay/drivers/<name>_test.go for a function key.
+func replayDriverFor(key string) string {
+	name := sanitize(strings.NewReplacer("mqtt.", "", "mqtttest.", "mt_", "(*", "", ")", "", "$", "_").Replace(key))
+	p := filepath.Join(verifDir, "replay", "drivers", name+"_test.go")
+	if _, err := os.Stat(p); err == nil {
+		return p
+	}
+	return ""
+}
+
+// runReplayDriver injects the driver into the package with -overlay and runs it.
+func runReplayDriver(driver, replayPath string, rep map[string]any) (bool, string) {
+	data, _ := json.MarshalIndent(rep, "", " ")
+	writeFileMk(replayPath, string(data))
+	pkgDir := repoDir
+	if strings.Contains(filepath.Base(driver), "mt_") {
+		pkgDir = filepath.Join(repoDir, "mqtttest")
+	}
+	target := filepath.Join(pkgDir, "zz_govc_replay_test.go")
+	ov := map[string]any{"Replace": map[string]string{target: driver}}
+	ovData, _ := json.Marshal(ov)
+	ovPath := replayPath + ".overlay.json"
+	os.WriteFile(ovPath, ovData, 0o644)
+	cmd := exec.Command("go", "test", "-overlay", ovPath, "-vet=off", "-count=1", "-timeout", "60s", "-run", "^TestGovcReplay$", ".")
+	cmd.Dir = pkgDir
+	cmd.Env = append(os.Environ(), "GOVC_REPLAY="+replayPath, "GOFLAGS=-mod=mod", "GOPROXY=off", "GOSUMDB=off", "GOTOOLCHAIN=local")
+	out, _ := cmd.CombinedOutput()
+	s := string(out)
+	return strings.Contains(s, "REPLAY: reproduced"), firstLines(s, 30)
+}
+
+func writeEvidence(prop, tier string, seed int, all []*Obligation, keys []string, notes map[string]bool, violations int, stats map[string]any, wall time.Duration, problem string) {
+	n, dis := 0, 0
+	var samples []map[string]any
+	vac := 0
+	for _, o := range all {
+		if o.IsCanary {
+			continue
+		}
+		n++
+		if o.Res.Answer == "unsat" {
+			dis++
+		}
+		if len(samples) < 12 || o.Res.Answer != "unsat" && len(samples) < 40 {
+			samples = append(samples, map[string]any{"obligation": o.Name, "kind": o.Kind, "clause": trunc(o.Text, 160), "source": o.Src, "answer": o.Res.Answer, "solver": o.Res.Solver, "secs": round2(o.Res.Secs), "smt_bytes": len(o.smtText)})
+		}
+	}
+	// known findings are excluded from both counts
+	kf := 0
+	if stats != nil {
+		if l, ok := stats["known_findings"].([]map[string]any); ok {
+			kf = len(l)
+		}
+	}
+	var trusted, assumptions []string
+	for k := range notes {
+		if strings.HasPrefix(k, "assumed contract: ") {
+			trusted = append(trusted, strings.TrimPrefix(k, "assumed contract: "))
+		} else {
+			assumptions = append(assumptions, k)
+		}
+	}
+	sort.Strings(trusted)
+	sort.Strings(assumptions)
+	trusted = append(trusted, "go/ssa (x/tools v0.29.0) translation of the Go source", "SMT solvers z3 4.8.12, z3 5.1.0, cvc5 1.0.x", "govc VC generator (this framework)")
+	assumptions = append(assumptions,
+		"partial correctness: termination is not proved",
+		"a pointer parameter to a struct is not interior to another parameter's object",
+		"package-level variables are immutable after init",
+	)
+	cov := map[string]any{
+		"obligations":              n - kf,
+		"discharged":               dis,
+		"checker_cmd":              fmt.Sprintf("bin/govc check --property %s --tier %s", prop, tier),
+		"trusted_base":             trusted,
+		"functions_under_contract": keys,
+		"samples":                  samples,
+		"vacuous":                  vac,
+		"explanation":              "Each obligation is a verification condition generated from the SSA of the function in /repo's working tree and its contract, discharged (unsat of the negation) by one of three SMT solvers raced per obligation. Obligations matched by a known finding are excluded from both counts.",
+	}
+	for k, v := range stats {
+		cov[k] = v
+	}
+	if problem != "" {
+		cov["problem"] = problem
+	}
+	ev := Evidence{PropertyID: prop, Tier: tier, Seed: seed, Level: "proof", Coverage: cov, Assumptions: assumptions, WallS: round2(wall.Seconds()), Violations: violations}
+	data, _ := json.MarshalIndent(ev, "", " ")
+	writeFileMk(filepath.Join(verifDir, "evidence", prop+".json"), string(data))
+}
+
+// ---- lemmas: self-contained SMT obligations from the spec files ----
+
+func lemmaObligations(S *Specs, prop string) []*Obligation {
+	var out []*Obligation
+	for _, l := range S.Lemmas {
+		if !hasTag(l.Tags, prop) || l.Script == "" {
+			continue
+		}
+		o := &Obligation{Name: "lemma/" + l.Name, Kind: "lemma", Func: "lemma", Props: l.Tags, Goal: TFalse, PC: TTrue, Src: l.Src, Text: "lemma " + l.Name}
+		o.smtText = "(set-logic ALL)\n" + l.Script + "(check-sat)\n"
+		out = append(out, o)
+	}
+	return out
+}
+
+func runLemmas(obls []*Obligation, d *Discharger) {
+	for _, o := range obls {
+		o.Res = Solve(d.Dir, sanitize(o.Name), o.smtText, d.Timeout, d.All)
+	}
+}
